@@ -63,21 +63,21 @@ fn add_step(n: usize) {
     std::mem::forget(mgr);
 }
 
-//@proof {'props': ['C17'], 'tier': 'quick', 'setup': True, 'timeout': 300, 'bounds': '2 live jobs, ids 1..=8 symbolic, one add', 'desc': 'add_as_current from an arbitrary 2-job table: fresh id distinct from every live id (one inductive step)'}
+//@proof {'props': ['C17'], 'tier': 'quick', 'setup': True, 'timeout': 300, 'confirm': ['vk_c17_history_ids'], 'bounds': '2 live jobs, ids 1..=8 symbolic, one add', 'desc': 'add_as_current from an arbitrary 2-job table: fresh id distinct from every live id (one inductive step)'}
 #[kani::proof]
 #[kani::unwind(5)]
 fn vk_c17_add_fresh_id_2() {
     add_step(2);
 }
 
-//@proof {'props': ['C17'], 'tier': 'quick', 'timeout': 300, 'bounds': '3 live jobs, ids 1..=8 symbolic, one add', 'desc': 'add_as_current from an arbitrary 3-job table'}
+//@proof {'props': ['C17'], 'tier': 'quick', 'timeout': 300, 'confirm': ['vk_c17_history_ids'], 'bounds': '3 live jobs, ids 1..=8 symbolic, one add', 'desc': 'add_as_current from an arbitrary 3-job table'}
 #[kani::proof]
 #[kani::unwind(5)]
 fn vk_c17_add_fresh_id_3() {
     add_step(3);
 }
 
-//@proof {'props': ['C17'], 'tier': 'quick', 'timeout': 300, 'bounds': '1 live job', 'desc': 'add_as_current on a 1-job table'}
+//@proof {'props': ['C17'], 'tier': 'quick', 'timeout': 300, 'confirm': ['vk_c17_history_ids'], 'bounds': '1 live job', 'desc': 'add_as_current on a 1-job table'}
 #[kani::proof]
 #[kani::unwind(5)]
 fn vk_c17_add_fresh_id_1() {
